@@ -14,6 +14,7 @@
 -/
 import GM.Proof.QuoteSimTop
 import GM.Proof.QuoteSimFlags
+import GM.Proof.QuoteSimBar
 
 namespace GM.Blocks
 open GM GM.Text GM.Spec GM.Proof.Reader
@@ -57,7 +58,7 @@ theorem ps_lists (src : Bytes) (hfl : FL src) : PS src alAll where
         (fun _ _ _ _ hh => ⟨hh.1, hh.2.choose, hh.2.choose_spec.2⟩)
     | paragraph => exact contW (paragraphContinue_sim src) k ls p node sA sB hs
   close := by
-    intro bp _ k ls p node sA sB hs hn0 ha hnr
+    intro bp _ k ls p node sA sB hs hn0 ha hnr _
     cases bp with
     | setext => exact setextClose_sim' src k ls p node sA sB hs hn0 ha.tmp (hnr (.inr rfl))
     | thematic => exact thematicClose_sim src k ls p node sA sB hs
@@ -79,10 +80,73 @@ theorem ot_lists (src : Bytes) : OT src where
     intro bp hbp
     cases bp <;> first | exact listOpen_sim src | exact listItemOpen_sim src | cases hbp
   ldecl := fun bp hbp hno => (ot_all src hno).ldecl bp hbp hno
+  sdecl := fun hnb k ls p q sA sB a sA' h e => ⟨(setextOpen_declines hnb q h e).1, (setextOpen_declines hnb q h e).2.1⟩
 
 theorem trig_lists (src : Bytes) : TrigOK src alAll where
   free := fun _ _ => .inl rfl
   trig := fun _ _ _ _ => .inl rfl
+
+/-! ### sources WITH blank lines: all parsers but the setext heading parser, which is tried and declines -/
+
+/-- every block parser but the setext heading parser -/
+def alNS : BP → Bool
+  | .setext => false
+  | _ => true
+
+theorem ps_listsG (src : Bytes) : PS src alNS where
+  open_ := by
+    intro bp hal
+    cases bp with
+    | setext => cases hal
+    | thematic => exact thematicOpen_sim src
+    | list => exact listOpen_sim src
+    | listItem => exact listItemOpen_sim src
+    | code => exact codeOpen_sim src
+    | atx => exact atxOpen_sim src
+    | fenced => exact fencedOpen_sim src
+    | blockquote => exact blockquoteOpen_sim src
+    | html => exact htmlOpen_sim src
+    | paragraph => exact paragraphOpen_sim src
+  cont := by
+    intro bp hal k ls p node sA sB hs hn0 ha hp hns hpre
+    cases bp with
+    | setext => cases hal
+    | thematic => exact contW (thematicContinue_sim src) k ls p node sA sB hs
+    | list => exact contW (listContinue_sim src) k ls p node sA sB hs
+    | listItem =>
+      exact S2.mono (listItemContinue_sim' src k ls p node sA sB hs hp (hpre rfl))
+        (fun _ _ _ _ hh => ⟨hh.1, hh.2.choose, hh.2.choose_spec.2⟩)
+    | code =>
+      exact S2.mono (codeContinue_sim' src k ls p node sA sB hs hp)
+        (fun _ _ _ _ hh => ⟨hh.1, hh.2.choose, hh.2.choose_spec.2⟩)
+    | atx => exact contW (atxContinue_sim src) k ls p node sA sB hs
+    | fenced =>
+      exact S2.mono (fencedContinue_sim' src k ls p node sA sB hs ha.fence hns)
+        (fun _ _ _ _ hh => ⟨hh.1, hh.2.choose, hh.2.choose_spec.2⟩)
+    | blockquote => exact contW (blockquoteContinue_sim src) k ls p node sA sB hs
+    | html =>
+      exact S2.mono (htmlContinue_sim' src k ls p node sA sB hs hp)
+        (fun _ _ _ _ hh => ⟨hh.1, hh.2.choose, hh.2.choose_spec.2⟩)
+    | paragraph => exact contW (paragraphContinue_sim src) k ls p node sA sB hs
+  close := by
+    intro bp hal k ls p node sA sB hs hn0 ha hnr hfe
+    cases bp with
+    | setext => cases hal
+    | thematic => exact thematicClose_sim src k ls p node sA sB hs
+    | list => exact listClose_sim' src k ls p node sA sB hs (flagsOK_of_fe (hfe rfl) ha.u node hn0)
+    | listItem => exact listItemClose_sim src k ls p node sA sB hs
+    | code => exact codeClose_sim src k ls p node sA sB hs
+    | atx => exact atxClose_sim src k ls p node sA sB hs
+    | fenced => exact fencedClose_sim src k ls p node sA sB hs
+    | blockquote => exact blockquoteClose_sim src k ls p node sA sB hs
+    | html => exact htmlClose_sim src k ls p node sA sB hs
+    | paragraph => exact paragraphClose_sim' src k ls p node sA sB hs (hnr (.inl rfl))
+
+theorem trig_listsG (src : Bytes) (hnb : NoBar src) : TrigOK src alNS where
+  free := by intro bp hb; simp [freeParsers] at hb; rcases hb with rfl | rfl <;> exact .inl rfl
+  trig := by
+    intro c _ bp _
+    cases bp <;> first | exact .inl rfl | exact .inr (.inr ⟨rfl, rfl, hnb⟩)
 
 /-- the class of the lists theorem: no tab, no CR, not empty, the last byte is not a space (e.g. a final line feed),
     and NO BLANK LINE -/
@@ -116,6 +180,40 @@ theorem quoteSim_of_classF {src : Bytes} (hc : C08ClassF src) {sA : St} (hA : ru
     ∀ e g, quoteSimPair src = some (e, g) → e = g := by
   obtain ⟨sB, hB, hn, hu, _⟩ := run_sim_lists hc hA
   exact quoteSimPair_eqL src sA sB hA hB hn (wellShapedL_of hu (segsNE_of_rel hA hn)) (flagsEq_of_rel hc.noblank hn)
+
+/-- the class of the lists theorem for sources WITH blank lines: no tab, no CR, not empty, the last byte is not a space,
+    and no position starts a setext heading underline (`NoBar`: no rest of a line consists of `=` or of `-` only, up
+    to trailing spaces) -/
+structure C08ClassG (src : Bytes) : Prop where
+  tf : ∀ c ∈ src, c ≠ 9
+  cr : ∀ c ∈ src, c ≠ 13
+  ne : src ≠ []
+  last : ∀ c, src.getLast? = some c → c ≠ 32
+  nobar : NoBar src
+
+theorem cls_listsG {src} (h : C08ClassG src) : Cls src alNS where
+  ps := ps_listsG src
+  fr := frames_any alNS rfl
+  ot := ot_lists src
+  ns := ns_of_last_ne h.last
+  tr := trig_listsG src h.nobar
+  tf := h.tf
+  h0 := lineAt_zero_qs src h.ne
+  shape := fun _ _ hl hb => blank_shape_w h.tf h.cr h.last hl hb
+
+theorem run_sim_listsG {src : Bytes} (hc : C08ClassG src) {sA : St} (hA : run src = .ok sA) :
+    ∃ sB, run (quotePrefix src) = .ok sB ∧ FRel src alNS sA.nodes sB.nodes :=
+  run_simG (cls_listsG hc) hc.ne hA
+
+/-- the conclusion on the dumps: lists AND blank lines -/
+theorem quoteSim_of_classG {src : Bytes} (hc : C08ClassG src) {sA : St} (hA : run src = .ok sA) :
+    ∀ e g, quoteSimPair src = some (e, g) → e = g := by
+  obtain ⟨sB, hB, hn, hu, _, hfe⟩ := run_sim_listsG hc hA
+  exact quoteSimPair_eqF src sA sB hA hB hn (wellShapedL_of hu (segsNE_of_rel hA hn)) (hfe rfl)
+
+instance (src : Bytes) : Decidable (C08ClassG src) :=
+  decidable_of_iff ((∀ c ∈ src, c ≠ 9) ∧ (∀ c ∈ src, c ≠ 13) ∧ src ≠ [] ∧ (∀ c, src.getLast? = some c → c ≠ 32) ∧ NoBar src)
+    ⟨fun h => ⟨h.1, h.2.1, h.2.2.1, h.2.2.2.1, h.2.2.2.2⟩, fun h => ⟨h.tf, h.cr, h.ne, h.last, h.nobar⟩⟩
 
 /-- `FL` is decidable: only line starts inside the source matter -/
 theorem fl_iff (src : Bytes) : FL src ↔
